@@ -377,6 +377,31 @@ def t5b(F, rep):
                 "bits requested for 0..7 buffered bits: %s (must be 0..7: exactly what is left of the current byte)" % got)
 
 
+_EXACT_READ = re.compile(r"^(read_exact|read_u8|read_u16|read_u24|read_u32|read_u64|by_ref)$")
+
+
+def t11(F, rep):
+    """The deflate reader takes bytes from its source only through all-or-error reads (read_u8 / read_exact behind `?`).
+    A counted or to-end read (`read`, `take(n).read_to_end`, `bytes()`) returns Ok on a short source, so a stream cut inside
+    a stored block would be accepted with fewer bytes than its LEN says — consumed length and rewritten bytes then disagree
+    with the input."""
+    n = 0
+    for name, b in sorted(F.bodies.items()):
+        if not re.match(r"^(<)?preflate_rs::(bit_reader|deflate_reader)::", name):
+            continue
+        seen = {}
+        for bb, t in b.calls():
+            c = t["callee"]
+            tr = c.get("trait")
+            if tr not in ("std::io::Read", "byteorder::ReadBytesExt", "std::io::BufRead"):
+                continue
+            m = c["def"].split("::")[-1]
+            n += 1
+            seen[m] = seen.get(m, 0) + 1
+            rep.add("T11", "exact-read:%s:%s@%d" % (name.replace("preflate_rs::", ""), m, seen[m]), bool(_EXACT_READ.match(m)), b.where(bb), "%s::%s" % (tr, m))
+    rep.floor("T11", "reader-source-reads", n, 1)
+
+
 def run(ctx, rep):
     F = ctx.lib
     rep.explanation = ("The decoder's data (RFC 1951 tables, counts, fixed-Huffman map, repeat codes, header field widths) is compared with a "
@@ -395,6 +420,7 @@ def run(ctx, rep):
     t5b(F, rep)
     t6(F, rep)
     t7(F, rep)
+    t11(F, rep)
     t8(F, rep)
     t9(F, rep)
     # T10: what is decoded is the caller's byte string from its first byte (no header guessed away in front of it), and the
